@@ -257,7 +257,7 @@ pub fn run(ctx: &mut Ctx) {
     ctx.assume("the bound 8 contains every admissible assignment (spherical capped at 7 by definition, euclidean orders are 2,3,4,6, minimal hyperbolic needs v <= 7); the harness asserts that no euclidean or minimally hyperbolic assignment touches 8");
     crate::props::run_regressions(ctx, "C07");
     ctx.layer("exhaustive");
-    let maxn = t.pick(8, 10);
+    let maxn = t.pick(8, 11);
     let cases: Vec<SetCase> = dsets_up_to(2, maxn).into_iter().map(SetCase).collect();
     let n = cases.len();
     ctx.run_par(&SUB_SET, cases, Some(&format!("all {} connected complete 2D D-sets with <= {} chambers x 4 geometries", n, maxn)));
@@ -265,7 +265,7 @@ pub fn run(ctx: &mut Ctx) {
     ctx.run_prop(
         &SUB_SET,
         || (connected_dset_strategy(2, 8..=12), prop::collection::vec((any::<u32>(), any::<u32>()), 0..8)).prop_map(|(ds, sw)| SetCase(ds.renumbered(&perm_from_swaps(ds.size, &sw)))),
-        t.pick(3_000, 60_000),
+        t.pick(3_000, 300_000),
     );
     counters(ctx);
 }
